@@ -10,6 +10,10 @@ CHECKS = {
          "Exploration: every token sequence up to length 3 (quick: 2) over a 58-spelling vocabulary in 12 tag framings, every prefix/suffix of 277 harvested templates, tens of thousands of random soups/mutants/nestings and (thorough) coverage-guided fuzzing all parse to a value or an error. Totality over all strings cannot be shown by testing; this is the densest search of the short-input space we can run.",
          "Trusts the H2 token budget (verif tag) as the non-termination detector for token-pulling loops, Go's recover for panics, inputs capped at 4 KiB.",
          "DESIGN.md §4 C03"),
+ "C20": ("exhaustive small-alphabet strings x sizes x trails + rapid payload strings / recursive JSON values; validity-predicate and round-trip oracles",
+         "Exploration: truncate is checked on every string of <=5 symbols over a 5-symbol multi-byte/invalid alphabet x 11 sizes x 5 trails and on tens of thousands of random payloads; the escapers on every byte, fixed hostile payloads and random payloads, directly and through templates; toJSON on a recursive generator with decode-back.",
+         "Trusts html.UnescapeString / encoding/json as decoders; 'character' = rune.",
+         "DESIGN.md §4 C20"),
 }
 
 NOT_BUILT = "check not built yet in this session (see DESIGN.md §4 for its plan); will be claimed once its check is committed"
